@@ -59,24 +59,23 @@ def hasCRLF (x : Bytes) : Bool := containsByte CR x || containsByte LF x
 /-- documented preconditions of the response API (outside them nothing is claimed):
     tokens free of CR/LF, names non-empty and colon-free, a non-negative status code,
     the head requested at most once and before any body byte, convenience calls only on a fresh
-    response, and no single-header call on a name that currently holds several map entries -/
-def wfOps : List ApiOp → (started : Bool) → (multi : List Bytes) → Bool
-  | [], _, _ => true
-  | op :: ops, started, multi =>
+    response -/
+def wfOps : List ApiOp → (started : Bool) → Bool
+  | [], _ => true
+  | op :: ops, started =>
     match op with
-    | .status c r => c ≥ 0 && (match r with | some x => !hasCRLF x | none => true) && wfOps ops started multi
+    | .status c r => c ≥ 0 && (match r with | some x => !hasCRLF x | none => true) && wfOps ops started
     | .hdr n v _ => !n.isEmpty && !containsByte COLON n && !hasCRLF n && !hasCRLF v &&
-                    !multi.contains (lower n) && (trim n == n) && wfOps ops started multi
+                    (trim n == n) && wfOps ops started
     | .hdrs m =>
       m.all (fun e => !e.1.isEmpty && !containsByte COLON e.1 && !hasCRLF e.1 && !hasCRLF e.2 && trim e.1 == e.1) &&
-      wfOps ops started ((m.map (fun e => lower e.1)).filter
-        (fun k => (m.filter (fun e => lower e.1 == k)).length > 1))
-    | .wh => !started && wfOps ops true multi
-    | .write _ => wfOps ops true multi
-    | .err c r => !started && c ≥ 0 && (match r with | some x => !hasCRLF x | none => true) && wfOps ops true multi
-    | .redir p _ => !started && !hasCRLF p && wfOps ops true multi
-    | .json _ c => !started && c ≥ 0 && wfOps ops true multi
-    | _ => wfOps ops started multi
+      wfOps ops started
+    | .wh => !started && wfOps ops true
+    | .write _ => wfOps ops true
+    | .err c r => !started && c ≥ 0 && (match r with | some x => !hasCRLF x | none => true) && wfOps ops true
+    | .redir p _ => !started && !hasCRLF p && wfOps ops true
+    | .json _ c => !started && c ≥ 0 && wfOps ops true
+    | _ => wfOps ops started
 
 def apiOps (sc : Scenario) : List ApiOp :=
   sc.events.filterMap fun e => match e with | .api o => some o | _ => none
@@ -87,7 +86,7 @@ def splitVals (vs : List Bytes) : List Bytes :=
 /-- scenario shape: `new`, then API calls from idle context interleaved with acknowledgements. -/
 def holds (env : Env) (sc : Scenario) (obs : List Obs) : Bool :=
   let ops := apiOps sc
-  if !wfOps ops false [] then true else
+  if !wfOps ops false then true else
   let spec := ops.foldl (Spec.step env.errPage) {}
   let wire := Obs.wire obs
   -- nothing after the library closed the transport
